@@ -219,6 +219,12 @@ def generate(rng, tier):
         ops.insert(pos, {"op": "decoy", "bits": rng.choice(_BITS), "gain": rng.choice([0.5, 3.0, 7.0]),
                          "shape": [rng.randint(1, 6), rng.randint(1, 6)], "poison": rng.random() < 0.5})
         ops.insert(pos + 1, {"op": "again"})
+    if prnu is None and dcnu is None and m != n and rng.random() < 0.3:
+        # the same Detector is pointed at an image of the same size but another shape (the sensor read out
+        # turned by 90 degrees), then at the first image again
+        pos = rng.randint(1, len(ops))
+        ops.insert(pos, {"op": "turned"})
+        ops.insert(pos + 1, {"op": "again"})
     for _ in range(rng.randint(0, 3)):
         c = rng.random()
         if c < 0.5:
@@ -614,6 +620,28 @@ def execute(plan):
                     viol("dn-repeatable", "again", note="same image, same draws, same detector: different frame",
                          reuse=bool(cfg.get("reuse_detector")))
                 bump(probes, "repeat_exposures_compared")
+        elif k == "turned":
+            if dn1 is None or S.prnu is not None or S.dcnu is not None or m == n:
+                ev["out"] = "skip"
+                events.append(ev)
+                continue
+            img_t = np.ascontiguousarray(img.T)
+            try:
+                dn_t = np.asarray(expose(img_t, True))
+            except Exception as e:
+                ev["out"] = "raised:" + type(e).__name__
+                viol("raised", "turned", exc=type(e).__name__, msg=str(e)[:160])
+                events.append(ev)
+                continue
+            ev["out"] = "ok"
+            want_shape = (d["frames"], n, m) if d["frames"] > 1 else (n, m)
+            if tuple(dn_t.shape) != want_shape:
+                viol("dn-shape", "turned", got=list(dn_t.shape), want=list(want_shape))
+            elif mode == "off" and sim.total_calls > 0:
+                # noise off: the exposure of the turned image is the turned exposure, sample for sample
+                if not np.array_equal(dn_t, np.swapaxes(dn1, -1, -2)):
+                    viol("dn-exact", "turned", note="the turned image does not give the turned frame")
+            bump(probes, "same_detector_other_image_shape")
         elif k == "brighter":
             if dn1 is None:
                 ev["out"] = "skip"
@@ -761,12 +789,16 @@ def _bin_tile(np, D, x, fac, mode, g, viol, bump, probes):
     if mode == "sum" and not abs(float(np.asarray(b).astype(np.float64).sum()) - xs) <= 1e-11 * max(abs(xs), 1e-300):
         viol("bin-sum", "bindown", note="total not conserved")
     y = g.standard_normal(want.shape)
+    y0 = y.copy()
     for scaling in ("sum", "avg"):
         try:
-            t = np.asarray(D.tile(y.copy(), fac if isinstance(fac, int) else list(fac), scaling=scaling))
+            t = np.asarray(D.tile(y, fac if isinstance(fac, int) else list(fac), scaling=scaling))   # the caller's own array
         except Exception as e:
             viol("raised", "tile", exc=type(e).__name__, msg=str(e)[:120])
             return
+        if not np.array_equal(y, y0):
+            viol("input-mutated", "tile", what="the array passed to tile was modified in place", scaling=scaling)
+            y[...] = y0
         if t.shape != x.shape:
             viol("tile-" + scaling, "tile", got=list(t.shape), want=list(x.shape))
             return
@@ -885,6 +917,14 @@ def _bayer(np, B, mos, cfa, viol, bump, probes, name=None):
                                    np.asarray(b).copy(), cfa, output=buf)
         if not (np.array_equal(np.asarray(rec2), mos) and np.array_equal(buf, mos)):
             viol("bayer-roundtrip", "recomposite-output-arg", cfa=cfa)
+        if mos.dtype.kind in "iu":
+            # the caller's buffer has another dtype (a float64 frame for integer planes): it is the buffer
+            # that must be filled, exactly
+            buf64 = np.full(mos.shape, -7.0)
+            B.recomposite_bayer(np.asarray(r).copy(), np.asarray(g1).copy(), np.asarray(g2).copy(),
+                                np.asarray(b).copy(), cfa, output=buf64)
+            if not np.array_equal(buf64, mos.astype(np.float64)):
+                viol("bayer-roundtrip", "recomposite-output-arg", cfa=cfa, note="output= buffer of another dtype not filled")
         keep_mos = mos.copy()
         de = np.asarray(B.demosaic_deinterlace(mos, cfa))
         if not np.array_equal(mos, keep_mos):
